@@ -215,6 +215,18 @@ func runC01(c c01Case) *vlib.Outcome {
 				}
 			case "event":
 				ec := w.checkEvent(loc, x.Doc, when)
+				if !o.Failed() && changed && kind == "indexed" {
+					// the event was processed; a location that holds
+					// the same items without the history must not
+					// refuse it (the other direction is checked where
+					// refusals are handled, below)
+					// (the location and what it inherits from now)
+					chain := c01Chain(w, loc)
+					if len(chain) > 0 && c01Historyless(w, kind, chain, x.Doc) == "refused" {
+						o.Fail("REFUSAL_DEPENDS_ON_HISTORY", "%s: the event was processed, but a location that holds the same items and has no history refuses it as unsortable", when)
+						return o
+					}
+				}
 				if ec.Unspec {
 					o.Label("event-unspecified")
 				} else {
@@ -239,14 +251,9 @@ func runC01(c c01Case) *vlib.Outcome {
 					// must refuse the event, too
 					if x.K == "event" {
 						// the event's location and its ancestors
-						var chain []string
-						for j := 0; j <= c.Parents; j++ {
-							if len(chain) > 0 || c01Locs[j] == loc {
-								chain = append(chain, c01Locs[j])
-							}
-						}
-						if msg := c01Historyless(w, kind, chain, x.Doc); msg != "" {
-							o.Fail("REFUSAL_DEPENDS_ON_HISTORY", "%s: the event was refused (%s), but %s", when, refusal, msg)
+						chain := c01Chain(w, loc)
+						if len(chain) > 0 && c01Historyless(w, kind, chain, x.Doc) == "processed" {
+							o.Fail("REFUSAL_DEPENDS_ON_HISTORY", "%s: the event was refused (%s), but a location that holds the same items and has no history processes it", when, refusal)
 							return o
 						}
 					}
@@ -261,8 +268,23 @@ func runC01(c c01Case) *vlib.Outcome {
 
 // c01Historyless builds the locations of w anew from what they hold now
 // (nothing that was removed or replaced has ever been there) and sends the
-// event to the first location of the chain.  It returns "" if that location
-// refuses the event as unsortable, too, or if no verdict is possible.
+// event to the first location of the chain.  It returns "refused" if that
+// location refuses the event as unsortable, "processed" if it does not, and ""
+// if no verdict is possible.
+// c01Chain: the location and what it inherits from at present, nearest
+// first (nil if that is not known).
+func c01Chain(w *world, loc string) []string {
+	order, ok := w.ancestors(loc) // (ancestors first, the location last)
+	if !ok {
+		return nil
+	}
+	chain := make([]string, 0, len(order))
+	for i := len(order) - 1; i >= 0; i-- {
+		chain = append(chain, order[i])
+	}
+	return chain
+}
+
 func c01Historyless(w *world, kind string, chain []string, event M) string {
 	for _, ln := range chain {
 		if ml := w.model[ln]; ml == nil || len(ml.Unspec) > 0 {
@@ -300,9 +322,9 @@ func c01Historyless(w *world, kind string, chain []string, event M) string {
 	}
 	_, cond := w2.locs[chain[0]].ProcessEvent(newCtx(), core.Map(gen.CopyMap(event)))
 	if cond != nil && isUnsortableRefusal(cond.Msg) {
-		return ""
+		return "refused"
 	}
-	return fmt.Sprintf("a location that holds the same items and has no history processes it (condition %v)", cond)
+	return "processed"
 }
 
 func TestC01(t *testing.T) {
